@@ -86,10 +86,10 @@ theorem C14_src_mul_foreign (s t : Statistics) :
     no exception escapes. -/
 theorem C14_src_mean (a : Stats) : (absStats a).mean = .ok (optF .nan a.mean) := by
   cases ha : a.valid
-  · simp [absStats, ha, Statistics.mean, INVALID_STATISTICS, PyF.div, PyF.divNZ, Stats.mean, optF]
+  · simp [absStats, ha, Statistics.mean, INVALID_STATISTICS, PyF.div, PyF.divNZ, Stats.mean, optF, bind, Except.bind, pure, Except.pure]
   · by_cases hw : a.weight = 0
-    · simp [absStats, ha, Statistics.mean, PyF.div, Stats.mean, optF, hw]
-    · simp [absStats, ha, Statistics.mean, PyF.div, PyF.divNZ, Stats.mean, optF, hw]
+    · simp [absStats, ha, Statistics.mean, PyF.div, Stats.mean, optF, hw, bind, Except.bind, pure, Except.pure]
+    · simp [absStats, ha, Statistics.mean, PyF.div, PyF.divNZ, Stats.mean, optF, hw, bind, Except.bind, pure, Except.pure]
       close_arith
 
 /-- **`variance()`**: `(sum2 − sum²/weight)/weight` for positive weight, NaN otherwise; no exception escapes. -/
